@@ -21,12 +21,24 @@
 (*    histogram give Equal histograms with nothing dropped; recording an    *)
 (*    in-range value never fails.  harness/cmd/vh-hdr replays each          *)
 (*    behaviour on a real Histogram.                                        *)
+(* 3. Large magnitudes.  TLC integers are 32-bit, the library's are 64-bit. *)
+(*    The geometry is invariant under two transformations, stated below as  *)
+(*    ScaleLaw (the whole shape and every value times 2^c: unit magnitude   *)
+(*    + c, same counts indices) and LiftLaw (max times 2^k, every value at  *)
+(*    or above the upper half of bucket 0 times 2^k: bucket index + k, same *)
+(*    sub-bucket), with TransExpect the induced transformation of the       *)
+(*    expectations.  TLC checks both laws for every shape and candidate     *)
+(*    value of the cfgs and ExpectLaw in every reachable state, for all     *)
+(*    k + c in 1..3 that keep the model below 2^30.  vh-hdr replays the     *)
+(*    same behaviours at (k, c) up to max * 2^(k+c) <= 2^62 and judges them *)
+(*    with TransExpect.                                                     *)
 (***************************************************************************)
 EXTENDS Integers, Sequences, FiniteSets, TLC, Json
 
 CONSTANTS Shapes,         \* set of <<min, max, sigfigs>>
-          CandKind,       \* "core" | "all" : which boundary-directed values are recorded
-          Mode,           \* "canon": only Record, values non-decreasing (one path per multiset); "full": every call
+          CandKind,       \* "core" | "all" | "ends" : which boundary-directed values are recorded
+          Mode,           \* "canon": only Record, values non-decreasing (one path per multiset); "full": every call;
+                          \* "merge": Record in any order, Export/Import, both Merge forms, Rotate
           Windows,        \* set of window sizes tried by "new" (0 = plain Histogram, n = WindowedHistogram of n)
           MaxTotal,       \* bound on recorded occurrences
           Depth,          \* calls per behaviour
@@ -36,6 +48,8 @@ CONSTANTS Shapes,         \* set of <<min, max, sigfigs>>
 ShapesExh == {<<mn, mx, sf>> : mn \in {1, 2, 3, 1000}, mx \in {100, 1023, 1024, 100000}, sf \in {1, 2}} \ {<<1000, 100, 1>>, <<1000, 100, 2>>}
 ShapesBoundary == {<<1, 1024, 1>>, <<1, 1024, 2>>, <<2, 1024, 1>>, <<3, 1024, 2>>, <<1, 32, 1>>, <<1, 256, 2>>, <<1000, 16384, 1>>}
 ShapesOne == {<<1, 1024, 1>>}
+\* min not a power of two: the bucket that holds min starts below min
+ShapesOffPow == {<<3, 100, 1>>, <<100, 100000, 2>>, <<1000, 100000, 1>>, <<1000, 16384, 3>>}
 \* sf 3..5: sub-bucket counts 2048 / 32768 / 262144; maxima at and off the bucket-count boundary
 ShapesHiSf == {<<1, 1000000, 3>>, <<1, 2097152, 3>>, <<1000, 100000000, 3>>, <<1, 10000000, 4>>, <<1, 33554432, 4>>,
                <<2, 100000000, 4>>, <<1, 268435456, 5>>, <<1, 100000000, 5>>, <<3, 300000000, 5>>}
@@ -97,6 +111,7 @@ PL(s) == 2^FloorLog2(s.max)               \* last power of two in range
 Ends(s) == {s.min, s.min + 1, s.max - 1, s.max}
 Cand(s) == IF CandKind = "all"
            THEN InR(s, Ends(s) \cup UNION {{p - 1, p, p + 1} : p \in Pows(s)})
+           ELSE IF CandKind = "ends" THEN InR(s, Ends(s) \cup {Half(s) * 2^Unit(s), B0(s)})
            ELSE InR(s, Ends(s) \cup {B0(s) - 1, B0(s), B0(s) + 1, PL(s) - 1, PL(s), PL(s) + 1, Half(s) * 2^Unit(s)})
 
 \* sorted insertion / union of sorted sequences
@@ -130,14 +145,38 @@ Expect(s, q)  == [total |-> Len(q), sorted |-> q, hi |-> HiSeq(s, q), prec |-> P
                   minlo |-> IF q = <<>> THEN 0 ELSE q[1] - Width(s, q[1]) + 1]
 Rec(call) == hist' = Append(hist, call @@ Expect(sh', Obs(bags')))
 
+\* ---------------------------------------------------------------- large magnitudes: scale and lift
+\* (k, c): lift k, scale c.  The shape (min, max, sf) becomes (min 2^c, max 2^(k+c), sf); a value below the upper
+\* half of bucket 0 (LiftFrom) is multiplied by 2^c, any other value by 2^(k+c).
+LiftFrom(s) == Half(s) * 2^Unit(s)
+Fac(s, k, c, v) == IF v >= LiftFrom(s) THEN 2^(k + c) ELSE 2^c
+TVal(s, k, c, v) == v * Fac(s, k, c, v)
+TShape(s, k, c) == [min |-> s.min * 2^c, max |-> s.max * 2^(k + c), sf |-> s.sf]
+TSeq(s, k, c, q) == [r \in 1..Len(q) |-> TVal(s, k, c, q[r])]
+\* what the replayer computes from the expectation e = Expect(s, q) printed for the untransformed behaviour:
+\* order statistics times their factor, the bound "exact + width - 1" by (hi + 1) f - 1, the precision bound
+\* from the property's formula on the transformed shape, the total unchanged
+TransExpect(s, k, c, e) ==
+    [total  |-> e.total,
+     sorted |-> [r \in 1..e.total |-> e.sorted[r] * Fac(s, k, c, e.sorted[r])],
+     hi     |-> [r \in 1..e.total |-> (e.hi[r] + 1) * Fac(s, k, c, e.sorted[r]) - 1],
+     prec   |-> [r \in 1..e.total |-> Max2(2^Unit(s) * 2^c, (e.sorted[r] * Fac(s, k, c, e.sorted[r])) \div 10^s.sf)],
+     minlo  |-> IF e.total = 0 THEN 0 ELSE (e.minlo - 1) * Fac(s, k, c, e.sorted[1]) + 1]
+\* the model stays below 2^30 (the bucket-count loop doubles once past max)
+Fits(s, n) == s.max <= 1073741823 \div 2^n
+LawPairs == {p \in (0..3) \X (0..3) : p[1] + p[2] >= 1 /\ p[1] + p[2] <= 3}
+
 \* ---------------------------------------------------------------- actions
 Shape(t) == [min |-> t[1], max |-> t[2], sf |-> t[3]]
 Init == /\ sh \in {Shape(t) : t \in Shapes} /\ win \in Windows
         /\ cand = Cand(sh)
         /\ bags = [i \in 1..Max2(win, 1) |-> <<>>] /\ cur = 1 /\ gbag = <<>> /\ counts = Empty
-        /\ hist = <<[op |-> "new", min |-> sh.min, max |-> sh.max, sf |-> sh.sf, win |-> win] @@ Expect(sh, <<>>)>>
+        /\ hist = <<[op |-> "new", min |-> sh.min, max |-> sh.max, sf |-> sh.sf, win |-> win,
+                      \* what the replayer needs to apply TransExpect (below) at a scale / lift
+                      liftfrom |-> LiftFrom(sh), pu |-> 2^Unit(sh), pd |-> 10^sh.sf] @@ Expect(sh, <<>>)>>
 
 Size == Len(Obs(bags))
+Rich == Mode \in {"full", "merge"}       \* the calls beyond Record are in play
 Last(q) == IF q = <<>> THEN 0 ELSE q[Len(q)]
 
 \* RecordValue(v) / RecordValues(v, n) on the histogram (plain) or on w.Current (windowed): must succeed
@@ -167,22 +206,22 @@ Reset == /\ Mode = "full" /\ win = 0 /\ bags[1] # <<>>
          /\ Rec([op |-> "reset"])
 
 \* h := Import(h.Export()): must be Equal to the original in both directions; the replay continues on the copy
-ExportImport == /\ Mode = "full" /\ win = 0
+ExportImport == /\ Rich /\ win = 0
                 /\ UNCHANGED <<sh, cand, win, bags, cur, gbag, counts>>
                 /\ Rec([op |-> "expimp", equal |-> TRUE])
 
 \* e := New(shape); dropped := e.Merge(h): nothing dropped, e Equal h; the replay continues on e
-MergeIntoEmpty == /\ Mode = "full" /\ win = 0
+MergeIntoEmpty == /\ Rich /\ win = 0
                   /\ UNCHANGED <<sh, cand, win, bags, cur, gbag, counts>>
                   /\ Rec([op |-> "mergeempty", equal |-> TRUE, dropped |-> 0])
 
 \* a second histogram g of the same shape
-GRecord(v) == /\ Mode = "full" /\ win = 0 /\ Len(gbag) < 2 /\ Size + Len(gbag) + 1 <= MaxTotal
+GRecord(v) == /\ Rich /\ win = 0 /\ Len(gbag) < 2 /\ Size + Len(gbag) + 1 <= MaxTotal
               /\ gbag' = Ins(gbag, v)
               /\ UNCHANGED <<sh, cand, win, bags, cur, counts>>
               /\ Rec([op |-> "grec", v |-> v])
 \* h.Merge(g): h gains g's values, nothing dropped, g unchanged
-MergeG == /\ Mode = "full" /\ win = 0 /\ gbag # <<>>
+MergeG == /\ Rich /\ win = 0 /\ gbag # <<>>
           /\ Len(bags[1]) + Len(gbag) <= MaxTotal
           /\ bags' = [bags EXCEPT ![1] = Union(@, gbag)]
           /\ counts' = CountsOf(sh, Union(bags[1], gbag))
@@ -202,7 +241,7 @@ Step == \/ \E v \in cand : Record(v, 1)
         \/ Mode = "full" /\ \E v \in cand, n \in {2, 3} : Record(v, n)
         \/ Mode = "full" /\ win = 0 /\ \E v \in cand : \E e \in {x \in cand : x < v /\ (v \div x) <= 4} : Corrected(v, e)
         \/ Reset \/ ExportImport \/ MergeIntoEmpty \/ MergeG \/ Rotate
-        \/ Mode = "full" /\ win = 0 /\ \E v \in cand : GRecord(v)
+        \/ Rich /\ win = 0 /\ \E v \in cand : GRecord(v)
 
 Next == Len(hist) < Depth + 1 /\ Step
 Spec == Init /\ [][Next]_vars
@@ -233,9 +272,64 @@ IteratorInBounds == \A i \in DOMAIN counts : (i \div Half(sh)) - 1 < BucketCount
 Inv == Conservation /\ GeometryOK /\ QuantileOK
 InvRange == IndexInRange /\ IteratorInBounds
 
+\* ---------------------------------------------------------------- the laws behind the large-magnitude replays
+\* ScaleLaw: (min 2^c, max 2^c, sf) has unit magnitude + c and otherwise the same geometry; v 2^c has the bucket,
+\* sub-bucket and counts index of v, lowest equivalent times 2^c, highest equivalent (highest + 1) 2^c - 1
+ScaleLaw == Static => \A c \in 1..3 : Fits(sh, c) =>
+    LET t == TShape(sh, 0, c) IN
+    /\ Unit(t) = Unit(sh) + c /\ SubCount(t) = SubCount(sh)
+    /\ BucketCount(t) = BucketCount(sh) /\ CountsLen(t) = CountsLen(sh)
+    /\ LiftFrom(t) = LiftFrom(sh) * 2^c
+    /\ \A v \in cand : LET w == v * 2^c IN
+          /\ t.min <= w /\ w <= t.max
+          /\ BucketIdx(t, w) = BucketIdx(sh, v) /\ SubIdx(t, w) = SubIdx(sh, v) /\ IndexOf(t, w) = IndexOf(sh, v)
+          /\ Lowest(t, w) = Lowest(sh, v) * 2^c
+          /\ Width(t, w) = Width(sh, v) * 2^c
+          /\ Highest(t, w) = (Highest(sh, v) + 1) * 2^c - 1
+          /\ ValueFromIdx(t, IndexOf(t, w)) = ValueFromIdx(sh, IndexOf(sh, v)) * 2^c
+          /\ Prec(t, w) = Max2(2^Unit(sh) * 2^c, w \div 10^sh.sf) /\ Prec(t, w) >= Prec(sh, v) * 2^c
+          \* RecordCorrectedValue fills the same occurrences
+          /\ \A e \in {x \in cand : x < v /\ x >= sh.min /\ (v \div x) <= 4} :
+                Fill(<<>>, w - e * 2^c, e * 2^c) = [r \in 1..Len(Fill(<<>>, v - e, e)) |-> Fill(<<>>, v - e, e)[r] * 2^c]
+\* LiftLaw: (min, max 2^k, sf) has the geometry of (min, max, sf) with up to k more buckets; a value at or above
+\* LiftFrom moves up k buckets keeping its sub-bucket, everything below stays where it is; order is preserved
+LiftLaw == Static => \A k \in 1..3 : Fits(sh, k) =>
+    LET t == TShape(sh, k, 0) IN
+    /\ Unit(t) = Unit(sh) /\ SubCount(t) = SubCount(sh) /\ LiftFrom(t) = LiftFrom(sh)
+    /\ BucketCount(sh) <= BucketCount(t) /\ BucketCount(t) <= BucketCount(sh) + k
+    /\ \A v \in cand : LET w == TVal(sh, k, 0, v) IN
+          /\ t.min <= w /\ w <= t.max /\ IndexOf(t, w) < CountsLen(t)
+          /\ SubIdx(t, w) = SubIdx(sh, v)
+          /\ IF v >= LiftFrom(sh)
+             THEN /\ w = v * 2^k /\ BucketIdx(t, w) = BucketIdx(sh, v) + k /\ SubIdx(sh, v) >= Half(sh)
+                  /\ IndexOf(t, w) = IndexOf(sh, v) + k * Half(sh)
+                  /\ Lowest(t, w) = Lowest(sh, v) * 2^k /\ Width(t, w) = Width(sh, v) * 2^k
+                  /\ Highest(t, w) = (Highest(sh, v) + 1) * 2^k - 1
+             ELSE /\ w = v /\ BucketIdx(t, w) = 0 /\ BucketIdx(sh, v) = 0 /\ IndexOf(t, w) = IndexOf(sh, v)
+                  /\ Lowest(t, w) = Lowest(sh, v) /\ Highest(t, w) = Highest(sh, v)
+          /\ \A u \in cand : (u < v => TVal(sh, k, 0, u) < w)
+\* the combination, on the expectations themselves, in every state: judging the transformed behaviour with
+\* TransExpect of the printed expectation is judging it with the expectation of the transformed shape and values
+ExpectLaw == \A p \in LawPairs : Fits(sh, p[1] + p[2]) =>
+    LET q == Obs(bags) IN
+    Expect(TShape(sh, p[1], p[2]), TSeq(sh, p[1], p[2], q)) = TransExpect(sh, p[1], p[2], Expect(sh, q))
+Laws == ScaleLaw /\ LiftLaw /\ ExpectLaw
+\* Expect and TransExpect work element by element (and on the first element for minlo), so ExpectLaw over every
+\* multiset of two candidate values (canon2_all, canon3_all, hisf_core2, law, merge3, boundary_full3, sim_hisf) covers
+\* the larger multisets of the other cfgs, which check the two static laws only
+LawsStatic == ScaleLaw /\ LiftLaw
+\* non-vacuity (MC_lawvac.cfg must violate it): some shape has a value that is lifted, at a k that fits
+LawVacuous == Static => ~ \E v \in cand : v >= LiftFrom(sh) /\ v < sh.max /\ Fits(sh, 3)
+
 \* ---------------------------------------------------------------- behaviour emission
 EmitAll  == Len(hist) < Depth + 1 \/ PrintT(<<"BEH", ToJson(hist)>>)
 EmitEdge == PrintT(<<"BEH", ToJson(hist')>>)
+\* binding self-test of the replayer's transformation: the final expectation of each behaviour under every law pair
+EmitLaw == Len(hist) < Depth + 1
+           \/ \A p \in {x \in LawPairs : Fits(sh, x[1] + x[2])} :
+                 PrintT(<<"LAW", ToJson([k |-> p[1], c |-> p[2], beh |-> hist,
+                                         t |-> TransExpect(sh, p[1], p[2], Expect(sh, Obs(bags))) @@
+                                               [min |-> TShape(sh, p[1], p[2]).min, max |-> TShape(sh, p[1], p[2]).max]])>>)
 SimNext == \/ Next
            \/ Len(hist) = Depth + 1 /\ PrintT(<<"BEH", ToJson(hist)>>) /\ UNCHANGED vars
 SimSpec == Init /\ [][SimNext]_vars
